@@ -69,6 +69,17 @@ def _work(task) -> core.Part:
                 p.out("ct_meter" if mt.startswith("685") else "standard_meter")
                 if e:
                     _report(p, layout, v, pad, e, f"meter type {mt!r}", mt.startswith("685"))
+    elif mode == "padsweep":
+        for k in list(range(0, 131)) + [200, 255]:
+            for pos in (0, 2, n // 2, n):
+                v = base_values(names)
+                e = check(layout, v, {pos: k})
+                p.add("evaluations")
+                p.add("nontrivial")
+                if e:
+                    _report(p, layout, v, {pos: k}, e, f"{k} null-data octets after position {pos}", False)
+                    if p.full("kamstrup"):
+                        return p
     elif mode == "values":
         a32 = cosemx.int_alphabet("u32", seed)
         a16 = cosemx.int_alphabet("u16", seed)
@@ -122,7 +133,7 @@ def main(run: core.Run) -> int:
                 "9 meter type numbers (CT types 685...); per register the u32/u16 alphabets for a standard and a CT meter; complete 2^16 sweep of one current register (standard and CT); list version / id texts; "
                 "each as bare body and as frame; non-trivial = distinct lists decoded")
     cosemx.bind_fixtures()
-    tasks = [(lay, run.seed, m) for lay in RC.KAM_LAYOUTS for m in ("pad", "values", "text")]
+    tasks = [(lay, run.seed, m) for lay in RC.KAM_LAYOUTS for m in ("pad", "values", "text", "padsweep")]
     for mt in (MTYPES[0], MTYPES[1]):
         for a in range(0, 65536 if q else 2 * 65536, 4096):
             tasks.append(("list1_3ph", run.seed, ("current_l1", a, a + 4096, mt)))
@@ -130,7 +141,7 @@ def main(run: core.Run) -> int:
     tot = run.total
     tot.sample({"layout": "list1_1ph", "meter_type": "6851111BN242101040", "register current_l1": 896, "expected": 0.896})
     tot.sample({"layout": "list2_3ph", "pad": {"3": 4}, "body_prefix": RC.kam_body(RC.KAM_L2_3, base_values(RC.KAM_L2_3), pad={3: 4}).hex()[:120]})
-    run.bounds = {"layouts": list(RC.KAM_LAYOUTS), "meter_types": list(MTYPES)}
+    run.bounds = {"layouts": list(RC.KAM_LAYOUTS), "padding_sweep": "0..130, 200, 255 null-data octets after 4 positions of every layout", "meter_types": list(MTYPES)}
     run.assumptions = ["reference encoders and OBIS table in mc/ref/cosem.py (bound to the fixtures of tests/test_kamstrup.py)", "current = register/100 taken literally: the correctly rounded quotient"]
     ev = tot.c.get("evaluations", 0)
     return run.finish(states=tot.c.get("nontrivial", 0), transitions=ev, traces=ev, evaluations=ev, distinct_nontrivial=tot.c.get("nontrivial", 0))
